@@ -370,7 +370,8 @@ class NcRNATblFeature(TblFeature):
     def __init__(self, transcript: TranscriptInterval, gene_feature: GeneTblFeature):
         qualifiers = gene_feature.qualifiers.copy()
         qualifiers["transcript_id"] = [transcript.transcript_id]
-        qualifiers["ncRNA_class"] = [transcript.transcript_type.name]
+        # a transcript without a biotype of its own falls in the INSDC ncRNA_class "other"
+        qualifiers["ncRNA_class"] = [transcript.transcript_type.name if transcript.transcript_type else "other"]
 
         super().__init__(
             transcript.chromosome_location,
